@@ -105,8 +105,9 @@ def sym_eq(ex, a, b):
         fa = a if is_sym(a) else z3.FPVal(a, F64); fb = b if is_sym(b) else z3.FPVal(b, F64)
         if not is_sym(a) and not is_sym(b):
             import struct
-            return struct.pack('<d', a) == struct.pack('<d', b) or (a != a and b != b)
-        return z3.Or(fa == fb, z3.And(z3.fpIsNaN(fa), z3.fpIsNaN(fb)))
+            return a == b or (a != a and b != b)
+        # numeric equality (+0 == -0, as Value's own == has it) or both NaN
+        return z3.Or(z3.fpEQ(fa, fb), z3.And(z3.fpIsNaN(fa), z3.fpIsNaN(fb)))
     if is_sym(a) or is_sym(b):
         if isinstance(a, bool): a = z3.BoolVal(a)
         if isinstance(b, bool): b = z3.BoolVal(b)
